@@ -61,28 +61,32 @@ Definition expand_mev (s : rb) (m : mev) : list ev :=
     16 the merge kept a live entry above the preloaded one   32 writes between the two critical sections *)
 Definition exists_blk (n : nat) (p : nat -> bool) : bool := existsb p (seq 0 n).
 
-Definition mev_flags (fx : bool) (K : nat) (s : rb) (m : mev) : list bool :=
-  let s1 := run fx K s (expand_mev s m) in
-  let srch := match m with MBoth _ _ | MSrc _ _ => negb (length (spend s1) =? 0) | _ => false end in
+(** the state after the events of [m] (before the flush) and the coverage bits *)
+Definition mev_run (fx : bool) (K : nat) (s : rb) (m : mev) : rb * list bool :=
   match m with
   | MUlm mid =>
       let sa := run fx K s (UlmBegin :: ulm_pre_all (dst s)) in
       let sb := run fx K sa (map bw mid) in
+      let s1 := step fx K sb UlmMerge in
       let pre := match uph sb with UScan c => pl (sp c) | _ => fun _ => 0 end in
       let L := loc (dst sb) in
-      [ false; negb (length (dpend sa) =? 0); length (dpend sb) <? length (dpend s1);
-        exists_blk (nblk (dst sb)) (fun b => (L b =? 0) && negb (pre b =? 0));
-        exists_blk (nblk (dst sb)) (fun b => negb (pre b =? 0) && (pre b <? L b));
-        negb (length mid =? 0) ]
+      (s1, [ false; negb (length (dpend sa) =? 0); length (dpend sb) <? length (dpend s1);
+             exists_blk (nblk (dst sb)) (fun b => (L b =? 0) && negb (pre b =? 0));
+             exists_blk (nblk (dst sb)) (fun b => negb (pre b =? 0) && (pre b <? L b));
+             negb (length mid =? 0) ])
   | MUlmRace ws =>
       let sb := run fx K s (map bw ws) in
-      [ false; false; length (dpend sb) <? length (dpend s1); false; false; false ]
-  | _ => [ srch ]
+      let s1 := run fx K sb (ulm_all (dst s)) in
+      (s1, [ false; false; length (dpend sb) <? length (dpend s1); false; false; false ])
+  | MBoth _ _ | MSrc _ _ =>
+      let s1 := run fx K s (expand_mev s m) in (s1, [ negb (length (spend s1) =? 0) ])
+  | _ => (run fx K s (expand_mev s m), [])
   end.
 
 Definition exec1 (fx : bool) (K : nat) (st : rb * list bool) (m : mev) : rb * list bool :=
   let '(s, acc) := st in
-  (flush (run fx K s (expand_mev s m)), orl acc (mev_flags fx K s m)).
+  let '(s1, f) := mev_run fx K s m in
+  (flush s1, orl acc f).
 
 Definition exec (fx : bool) (K : nat) (s : rb) (ms : list mev) : rb * list bool :=
   fold_left (exec1 fx K) ms (s, []).
@@ -269,6 +273,11 @@ Fixpoint bad_rcases_v (fx : bool) (i : nat) (cs : list rcase) : list (nat * nat 
   end.
 
 Definition rcoverage_v (fx : bool) (cs : list rcase) : list nat := map (fun c => rv_flags (check_rcase_v fx c)) cs.
+
+(** everything about every case in one pass: (difference code, oracle, coverage word) *)
+Definition rverdicts_v (fx : bool) (cs : list rcase) : list (nat * nat * nat) :=
+  map (fun c => let v := check_rcase_v fx c in (rv_diff v, b2n (rv_oracle v), rv_flags v)) cs.
+Definition rverdicts := rverdicts_v code_variant.
 
 Definition bad_rcases := bad_rcases_v code_variant.
 Definition rcoverage := rcoverage_v code_variant.
